@@ -317,7 +317,8 @@ fn run_pipeline(sink: &mut Sink, rng: &mut Rng, args: &Args, ndicts: usize, ntex
         // prefix chains in a class that may not begin a word everywhere (ASCII letters continue a run; U+30A1 is NOOOVBOW):
         // a shorter word may end where no word may begin while a longer one ends on a legal boundary -- the longer one is
         // still a candidate
-        for w in ["ap", "app", "apple", "applepie", "ア", "アァ", "アァイ"] {
+        let long_key = "ん".repeat(345); // an index key of more than 1024 bytes
+        for w in ["ap", "app", "apple", "applepie", "ア", "アァ", "アァイ", long_key.as_str()] {
             let src = rows[*rng.pick(&indexed[..])].clone();
             let mut f: Vec<String> = src.split(',').map(|s| s.to_string()).collect();
             f[0] = w.to_string();
@@ -372,6 +373,8 @@ fn run_pipeline(sink: &mut Sink, rng: &mut Rng, args: &Args, ndicts: usize, ntex
         // templates of the MeCab provider per category, as written in unk.def: whatever span the provider offers for a
         // category, it offers with EVERY template of that category
         let mut by_cat: Vec<Vec<(u16, u16, i16)>> = vec![];
+        let mut alpha_lengths = false;
+        let mut alpha_cat: Option<usize> = None;
         let mut providers = vec![];
         if rng.chance(1, 2) {
             // MeCab provider in front of the fallback: unk.def written here, one or two lines per category of the
@@ -396,10 +399,20 @@ fn run_pipeline(sink: &mut Sink, rng: &mut Rng, args: &Args, ndicts: usize, ntex
                     templates.push((l as u16, r as u16, c as i16));
                     cat.push((l as u16, r as u16, c as i16));
                 }
+                if name == "ALPHA" {
+                    alpha_cat = Some(by_cat.len());
+                }
                 by_cat.push(cat);
             }
             std::fs::create_dir_all(&dir).unwrap();
             std::fs::write(dir.join("unk.def"), unk).unwrap();
+            // in half of them the letters get length candidates (1 and 2 characters) instead of the whole run: words then end
+            // INSIDE a run of letters, and the position behind them is a position like any other for every provider
+            if rng.chance(1, 2) {
+                let own: String = chardef.lines().map(|l| if l.trim_start().starts_with("ALPHA") && !l.trim_start().starts_with("0x") { "ALPHA 1 0 2".to_string() } else { l.to_string() }).collect::<Vec<_>>().join("\n");
+                std::fs::write(dir.join("char.def"), own).unwrap();
+                alpha_lengths = true;
+            }
             providers.push(json!({"class": "com.worksap.nlp.sudachi.MeCabOovPlugin", "charDef": "char.def", "unkDef": "unk.def", "userPOS": "allow"}));
         }
         providers.push(json!({"class": "com.worksap.nlp.sudachi.SimpleOovPlugin",
@@ -490,9 +503,10 @@ fn run_pipeline(sink: &mut Sink, rng: &mut Rng, args: &Args, ndicts: usize, ntex
                 let mut ml = sudachi::analysis::mlist::MorphemeList::empty(&dict);
                 ml.collect_results(&mut tok).unwrap();
                 let morph: Vec<(u32, usize, i32)> = ml.iter().map(|m| (m.word_id().as_raw(), m.end_c(), m.total_cost())).collect();
-                Some((all, eos, nchars, morph, expected))
+                let norm_chars: Vec<char> = tok.verif_input().current_chars().to_vec();
+                Some((all, eos, nchars, morph, expected, norm_chars))
             });
-            let (all, eos, nchars, morph, expected) = match r {
+            let (all, eos, nchars, morph, expected, norm_chars) = match r {
                 Ok(Some(x)) => x,
                 Ok(None) => continue,
                 Err(p) => {
@@ -570,6 +584,19 @@ fn run_pipeline(sink: &mut Sink, rng: &mut Rng, args: &Args, ndicts: usize, ntex
                     }
                 } else if !templates.contains(&(n.left_id, n.right_id, n.cost)) && fail.is_none() {
                     fail = Some(format!("out-of-vocabulary candidate {}..{} carries (left {}, right {}, cost {}) which is none of the configured templates {:?}", n.begin, n.end, n.left_id, n.right_id, n.cost, templates));
+                }
+            }
+            if let (true, Some(ac), true) = (alpha_lengths, alpha_cat, fail.is_none()) {
+                let chars: Vec<char> = norm_chars.clone();
+                for (p, ch) in chars.iter().enumerate() {
+                    if !ch.is_ascii_alphabetic() {
+                        continue;
+                    }
+                    let reachable = p == 0 || all.iter().any(|x| x.2.end == p);
+                    if reachable && !all.iter().any(|x| x.2.begin == p && by_cat[ac].contains(&(x.2.left_id, x.2.right_id, x.2.cost))) {
+                        fail = Some(format!("position {} of the normalised text (letter {:?}) can be reached but carries no candidate of the MeCab provider's ALPHA definition (length candidates 1..2 are configured)", p, ch));
+                        break;
+                    }
                 }
             }
             let totals: Vec<i32> = morph.iter().map(|m| m.2).collect();
